@@ -29,7 +29,8 @@ from vlib import Infra
 
 NAMES_SMALL = '{"a", "ü"}'
 NAMES_MID = '{"a", "a.b", "ü"}'
-NAMES_BIG = '{"a", "a.b", "sp ace", "ü", "d", "e", "ten-chars1", "a-very-long-file-name-0123456789"}'
+# (the last two: one name in composed and in decomposed Unicode form - different names for the bundle)
+NAMES_BIG = '{"a", "a.b", "sp ace", "ü", "d", "e", "ten-chars1", "a-very-long-file-name-0123456789", "\u00e9", "e\u0301"}'
 READS = 1400
 
 
